@@ -41,6 +41,7 @@ type ctlrunIn struct {
 	MaxPwm   int  `json:"max_pwm,omitempty"` // configured maxPwm (0 = not configured)
 	NoRpm    bool `json:"no_rpm,omitempty"`  // fan without RPM input: the control actor is the only actor of the inner group
 	BlockAt  int  `json:"block_at,omitempty"` // scenarios 11/12: the control cycle (curve evaluation) that is in flight when the context is cancelled
+	LingerMs int  `json:"linger_ms,omitempty"` // scenarios 13/14: after the hand-back the controller is kept alive this long (real time) before the context is cancelled
 }
 type ctlrunObs struct {
 	Ret     int      `json:"ret"` // 0 Run returned nil, 1 returned an error, 2 panicked, 3 did not return
@@ -51,6 +52,11 @@ type ctlrunObs struct {
 	Evals   int      `json:"evals"`
 	NWrites int      `json:"n_writes"`
 	Tail    []string `json:"tail"` // last driver operations
+	// the device while the process still lives, LingerMs after the controller gave the fan up (= final state when it does not linger)
+	MidMode, MidPwm int
+	// the device 250 ms after Run returned and everything that was in flight has been released (= final state otherwise)
+	LateMode, LatePwm int
+	ModeTried         bool `json:"mode_tried"` // the restore asked the fan for its original mode
 }
 
 // scenarios
@@ -67,6 +73,8 @@ const (
 	ctlrunStallWalk       = 10 // ... curve asks for half speed: the minimum is raised step by step until the maximum is reached
 	ctlrunCancelInTick    = 11 // the context is cancelled while a control cycle is in flight; the cycle is released after the other actors had time to return
 	ctlrunCancelPending   = 12 // a control cycle blocks for several tick periods (a tick is pending), then cancel and release at once
+	ctlrunErrLinger       = 13 // control error (as 5), then the controller stays alive for LingerMs: the hand-back must persist
+	ctlrunStallLinger     = 14 // stalled at max (as 9), then the controller stays alive for LingerMs
 )
 
 type ctlrunPers struct {
@@ -157,7 +165,7 @@ func ctlrunRun(ctx *Ctx, seq int, in ctlrunIn) (ctlrunObs, string, []string) {
 	}
 	fc := configuration.FanConfig{ID: fmt.Sprintf("ctlrun%d", seq), Curve: "ctlrun_curve",
 		HwMon: &configuration.HwMonFanConfig{PwmPath: pwmPath, PwmEnablePath: enPath, RpmInputPath: rpmPath}}
-	stall := in.Scn == ctlrunStallAtMax || in.Scn == ctlrunStallWalk
+	stall := in.Scn == ctlrunStallAtMax || in.Scn == ctlrunStallWalk || in.Scn == ctlrunStallLinger
 	if in.MaxPwm > 0 {
 		v := in.MaxPwm
 		fc.MaxPwm = &v
@@ -189,7 +197,7 @@ func ctlrunRun(ctx *Ctx, seq int, in ctlrunIn) (ctlrunObs, string, []string) {
 	}
 	pers := &ctlrunPers{Persistence: persistence.NewPersistence(filepath.Join(dir, "fan2go.db")), scn: in.Scn}
 	inTick := in.Scn == ctlrunCancelInTick || in.Scn == ctlrunCancelPending
-	if (in.Scn >= ctlrunErrDeviceGone && in.Scn <= ctlrunCancel) || stall || inTick {
+	if (in.Scn >= ctlrunErrDeviceGone && in.Scn <= ctlrunCancel) || stall || inTick || in.Scn == ctlrunErrLinger {
 		// characterised earlier: stored data exists
 		data := map[int]float64{0: 0, in.Top: 1200}
 		if stall {
@@ -205,6 +213,15 @@ func ctlrunRun(ctx *Ctx, seq int, in ctlrunIn) (ctlrunObs, string, []string) {
 	gone := false
 	armed := false // the control error has been injected: the next write is the restore's first one
 	var cancelRun context.CancelFunc
+	var obs ctlrunObs
+	readDev := func() (int, int) {
+		m := in.OrigMode
+		if in.Exists {
+			m = ctlrunReadInt(enPath, -999)
+		}
+		return m, ctlrunReadInt(pwmPath, -999)
+	}
+	lingering, midSet := false, false
 	failRpm := false
 	nRpmReads := 0
 	util.VerifWriteHook = func(path string, data []byte) (error, bool) {
@@ -217,7 +234,23 @@ func ctlrunRun(ctx *Ctx, seq int, in ctlrunIn) (ctlrunObs, string, []string) {
 		if stall && path == pwmPath && strings.TrimSpace(string(data)) == strconv.Itoa(in.OrigPwm) {
 			armed = true // regulation stays within 40..61: this is the restore's SetPwm(originalPwmValue)
 		}
-		if armed && cancelRun != nil {
+		if armed && path == enPath && strings.TrimSpace(string(data)) == strconv.Itoa(in.OrigMode) {
+			obs.ModeTried = true
+		}
+		if armed && cancelRun != nil && in.LingerMs > 0 {
+			if !lingering {
+				// the controller has given the fan up; keep it alive, look at the device later, then cancel
+				lingering = true
+				go func() {
+					time.Sleep(time.Duration(in.LingerMs) * time.Millisecond)
+					m, p := readDev()
+					mu.Lock()
+					obs.MidMode, obs.MidPwm, midSet = m, p, true
+					mu.Unlock()
+					cancelRun()
+				}()
+			}
+		} else if armed && cancelRun != nil {
 			// the restore has begun: cancel the context so that the RPM monitor returns and Run can return
 			cancelRun()
 		}
@@ -247,11 +280,12 @@ func ctlrunRun(ctx *Ctx, seq int, in ctlrunIn) (ctlrunObs, string, []string) {
 	defer cancel()
 	cancelRun = cancel
 	curve := &ctlrunCurve{at: 3}
+	var relDone chan struct{}
 	switch in.Scn {
 	case ctlrunErrDeviceGone:
 		curve.fail = true
 		curve.fire = func() { mu.Lock(); gone, armed = true, true; mu.Unlock() }
-	case ctlrunErr:
+	case ctlrunErr, ctlrunErrLinger:
 		curve.fail = true
 		curve.fire = func() { mu.Lock(); armed = true; mu.Unlock() }
 	case ctlrunCancel:
@@ -263,7 +297,9 @@ func ctlrunRun(ctx *Ctx, seq int, in ctlrunIn) (ctlrunObs, string, []string) {
 			curve.blockAt = 2
 		}
 		curve.blocked, curve.release = make(chan struct{}), make(chan struct{})
+		relDone = make(chan struct{})
 		go func() {
+			defer close(relDone)
 			select {
 			case <-curve.blocked:
 			case <-time.After(10 * time.Second):
@@ -278,13 +314,12 @@ func ctlrunRun(ctx *Ctx, seq int, in ctlrunIn) (ctlrunObs, string, []string) {
 			}
 			close(curve.release)
 		}()
-	case ctlrunStallAtMax:
+	case ctlrunStallAtMax, ctlrunStallLinger:
 		curve.konst = 255
 	case ctlrunStallWalk:
 		curve.konst = 128
 	}
 	c := controller.VerifNewController(pers, fan, curve, control_loop.NewDirectControlLoop(nil), 3*time.Millisecond)
-	var obs ctlrunObs
 	done := make(chan struct{})
 	go func() {
 		defer close(done)
@@ -318,14 +353,25 @@ func ctlrunRun(ctx *Ctx, seq int, in ctlrunIn) (ctlrunObs, string, []string) {
 	}
 	mu.Unlock()
 	obs.Evals = curve.n
-	obs.Pwm = ctlrunReadInt(pwmPath, -999)
-	obs.Mode = in.OrigMode
-	if in.Exists {
-		obs.Mode = ctlrunReadInt(enPath, -999)
+	obs.Mode, obs.Pwm = readDev()
+	if relDone != nil {
+		// whatever was in flight when the context was cancelled has been released; give it time to finish
+		select {
+		case <-relDone:
+		case <-time.After(3 * time.Second):
+		}
+		time.Sleep(250 * time.Millisecond)
 	}
+	obs.LateMode, obs.LatePwm = readDev()
+	mu.Lock()
+	if !midSet {
+		obs.MidMode, obs.MidPwm = obs.Mode, obs.Pwm
+	}
+	mu.Unlock()
 	dev := func(m, p int) string { return "(mkDev " + cZ(m) + " " + cZ(p) + ")" }
 	coq := cRec("mkCase", cBool(in.Exists), dev(in.OrigMode, in.OrigPwm), cZ(in.Scn), cZ(in.Top),
-		cZ(obs.Ret), cBool(obs.Touched), dev(obs.Mode, obs.Pwm), cZ(obs.Evals), cBool(in.NoRpm))
+		cZ(obs.Ret), cBool(obs.Touched), dev(obs.Mode, obs.Pwm), cZ(obs.Evals), cBool(in.NoRpm),
+		dev(obs.MidMode, obs.MidPwm), dev(obs.LateMode, obs.LatePwm), cBool(obs.ModeTried))
 	tags := []string{fmt.Sprintf("scn=%d", in.Scn), fmt.Sprintf("ret=%d", obs.Ret), fmt.Sprintf("origmode=%d", in.OrigMode)}
 	if !in.Exists {
 		tags = append(tags, "no-pwm-enable")
@@ -375,6 +421,14 @@ func init() {
 								OrigPwm: rng.Pick([]int{0, 77, 120}), Top: rng.Pick([]int{120, 200, 240}), NoRpm: norpm, BlockAt: k})
 							jt = append(jt, "generated")
 						}
+					}
+				}
+				// fatal control error, then the controller is kept alive (real time) before the shutdown: the hand-back must persist
+				for _, scn := range []int{ctlrunErrLinger, ctlrunStallLinger} {
+					for _, v := range [][2]int{{2, 0}, {5, 1}} {
+						jobs = append(jobs, ctlrunIn{Scn: scn, Exists: true, OrigMode: v[0], OrigPwm: rng.Pick([]int{77, 120}),
+							Top: 200, NoRpm: v[1] == 1 && scn == ctlrunErrLinger, LingerMs: ctx.Param("linger_ms", 1300)})
+						jt = append(jt, "generated")
 					}
 				}
 				for scn := 1; scn <= 10; scn++ {
